@@ -129,6 +129,24 @@ pub fn c07_module(p: &Placed, server: &mut Server) -> ModResult {
             r.failures.push(json!({"signature": "unbound-name-in-declaration", "message": format!("the declaration of `{}` mentions {:?}, which it neither binds nor is a type of the module: {}", td.ts_name(), stray, decls[0]), "case": case_of(p, json!({}))}));
             continue;
         }
+        // (6) the dependencies of an instantiation are the types its declarations mention: nothing
+        // it does not use (a default of a parameter that was made concrete), nothing missing
+        for t in ts {
+            let info = &v.infos[*t];
+            if let (Some(dc), Some(deps)) = (okstr(info, "decl_concrete").and_then(|s| tsmodel::parse_module(s).ok()).and_then(|mm| mm.decls.into_iter().next()), info["dependencies"].as_array()) {
+                let mut free = tsmodel::free_type_names(&dc);
+                free.extend(tsmodel::free_type_names(&decl));
+                free.remove(&decl.name);
+                let mut dn: BTreeSet<String> = deps.iter().filter_map(|x| x["ts_name"].as_str().map(|s| s.to_string())).collect();
+                dn.remove(&decl.name);
+                r.evaluations += 1;
+                if free != dn {
+                    let known_inline_default = td.all_fields().iter().any(|f| f.inline || f.flatten);
+                    r.failures.push(json!({"signature": if known_inline_default { "import-unused-default-of-inlined-generic" } else { "dependencies-differ-from-declaration" }, "message": format!("`{}`: the declarations mention {:?}, dependencies() reports {:?}\ndecl: {}\ndecl_concrete: {}", label(*t), free, dn, decls[0], okstr(info, "decl_concrete").unwrap_or("")), "case": case_of(p, json!({}))}));
+                    break;
+                }
+            }
+        }
         for t in ts {
             let TyExpr::User(_, args) = &m.insts[*t] else { continue };
             let Some(name) = okstr(&v.infos[*t], "name") else { continue };
